@@ -277,6 +277,8 @@ type CCase struct {
 	ReqSize  int      `json:"req_size"`
 	RespEnc  string   `json:"resp_enc"`
 	RespFlag bool     `json:"resp_flag"`
+	// EndCompressed: the server also compresses its final end-of-stream envelope / trailer frame
+	EndCompressed bool `json:"end_compressed,omitempty"`
 }
 
 func clientAdvertised(extra []string) []string {
@@ -301,9 +303,13 @@ func checkC(tt *testing.T, c CCase) (pbt.Info, error) {
 	resp, err := refwire.BuildResponse(&refwire.RespSpec{
 		Protocol: c.Protocol, Kind: c.Kind, ContentType: refwire.ContentType(c.Protocol, c.Kind, c.Codec),
 		Msgs: [][]byte{refwire.EncodePing(c.Codec, respMsg.N, respMsg.Text())}, Encoding: c.RespEnc, CompressMsg: []bool{respCompressed},
+		Knobs: refwire.Knobs{CompressEnd: c.EndCompressed && contains(comp.Universe, c.RespEnc)},
 	})
 	if err != nil {
 		return info, nil
+	}
+	if c.EndCompressed {
+		info.Label("compressed-end-of-stream-frame")
 	}
 	encH, accH := headerNames(c.Protocol, c.Kind)
 	if c.RespEnc == "br" && c.Protocol == "connect" && c.Kind == prog.Unary {
@@ -395,6 +401,7 @@ func genC(t *rapid.T) CCase {
 	c.ReqSize = max(0, base+rapid.IntRange(-12, 6).Draw(t, "reqdelta"))
 	c.RespEnc = rapid.SampledFrom([]string{"", "", "identity", "gzip", "deflate", "zlib", "toy", "br"}).Draw(t, "respenc")
 	c.RespFlag = rapid.Bool().Draw(t, "respflag")
+	c.EndCompressed = rapid.IntRange(0, 2).Draw(t, "endCompressed") == 0
 	return c
 }
 
